@@ -273,6 +273,19 @@ func solveAll(obs []*Obligation, timeout int, thorough bool) {
 		}(o)
 	}
 	wg.Wait()
+	// an obligation no solver decided in time is tried once more, alone and with three times the time, before it is
+	// reported: under load (other checks running beside this one) a query that needs 15 s can miss a 60 s limit, and an
+	// undecided obligation on the unchanged tree would be a false alarm. A `sat` is never retried.
+	for _, o := range obs {
+		if o.Script == "" || o.Result != "unknown" || o.ExpectSat || o.shortTimeout > 0 {
+			continue
+		}
+		first := o.Secs
+		o.Result, o.Solver = "", ""
+		solveOne(o, 3*timeout, thorough)
+		o.Secs += first
+		o.Retried = true
+	}
 	if workDir != "" {
 		os.RemoveAll(workDir)
 		workDir = ""
